@@ -146,7 +146,14 @@ def prepare(case, d, variant="plain"):
             with open(lf, "wb") as fh:
                 fh.write(text)
             args += ["-F", lf, "-D", ind]
-            if case.get("sort"):
+            if case.get("sort_lines"):
+                # explicit sort file: (priority, [flags], path)
+                sf = os.path.join(d, "sort.txt")
+                with open(sf, "wb") as fh:
+                    for prio, flags, pth in case["sort_lines"]:
+                        fh.write(b"%d %s\"%s\"\n" % (prio, (b"[" + ",".join(flags).encode() + b"] ") if flags else b"", pth))
+                args += ["-S", sf]
+            elif case.get("sort"):
                 files = [n["path"] for n in nodes if n["type"] == "file" and b'"' not in n["path"] and b"\\" not in n["path"] and b"\r" not in n["path"]
                          and n["path"] == n["path"].strip()]
                 sf = os.path.join(d, "sort.txt")
